@@ -36,5 +36,5 @@ def su_no_fallthrough(data, metadata, old):
     from pyvc.spec import uf
     if not (hasattr(metadata, "property_name") and hasattr(metadata, "get_mapping")):
         return True
-    m = uf("call.metadata.get_mapping", metadata)
+    m = uf("call.get_mapping", metadata)
     return not (isinstance(data, dict) and metadata.property_name in data and m)
